@@ -107,11 +107,28 @@ class Fixpoint(Base):
         hub.on("alg_enter", self.enter)
         hub.on("alg_exit", self.exit)
         hub.on("pop", self.pop)
+        hub.on("bt_exit", self.bt_exit)
+        hub.on("reset", self.on_reset)
         self.passes_seen = set()
+        # skip-self bookkeeping: constraints whose queue bit was still set when a pass at some level ended. The child
+        # of the choice made there consumes that bit; after backtracking to the level the re-run is still owed but
+        # nothing remembers it (the queue is not part of the choice point) - a consequence of finding F14.
+        self.stale_at_level = {}
+        self.owed = set()
+
+    def on_reset(self, args):
+        self.stale_at_level = {}
+        self.owed = set()
+
+    def bt_exit(self, args, ok, where):
+        if ok and where == "search":
+            t = int(args[3][0])
+            self.owed = set(self.stale_at_level.get(t, ()))
 
     def pop(self, triggered, prev, r):
         if r != -1:
             self.last_prop = r
+            self.owed.discard(int(r))
             if self.stack:
                 self.stack[-1]["execs"] += 1
         if not self.stack or self.stack[-1].get("args") is None:
@@ -222,14 +239,18 @@ class Fixpoint(Base):
                           "constraint #%d %s%r fails when re-executed on the result of a pass that reported status %d "
                           "(views %r, still queued: %s)" % (p, name, _params(args, p).tolist(), status, v0.tolist(),
                                                             bool(queue[p])),
-                          constraint=name, queued=bool(queue[p]), last=(p == self.last_prop))
+                          constraint=name, queued=bool(queue[p]), last=(p == self.last_prop),
+                          owed=bool((p in self.owed) and not queue[p]))
             elif name != "no_sub_cycle" and not np.array_equal(views, v0):
-                # a shared domain occurring twice: compare on the shared domains (intersection of the views)
-                self.fail("C08", "not_a_fixpoint",
+                owed = (p in self.owed) and not queue[p]
+                self.fail("C08", "not_a_fixpoint" if not owed else "not_a_fixpoint_rerun_owed_after_backtrack",
                           "constraint #%d %s%r still prunes after the pass: views %r -> %r (still queued: %s, "
                           "last executed: %s)" % (p, name, _params(args, p).tolist(), v0.tolist(), views.tolist(),
                                                   bool(queue[p]), p == self.last_prop),
-                          constraint=name, queued=bool(queue[p]), last=(p == self.last_prop))
+                          constraint=name, queued=bool(queue[p]), last=(p == self.last_prop),
+                          owed=bool((p in self.owed) and not queue[p]))
+        if not inner:
+            self.stale_at_level[top] = set(int(i) for i in np.nonzero(queue)[0]) | set(self.owed)
         for (sp, mover, sd, sev) in ent.get("suspects", []):
             self._targeted_schedule(args, ent, sp, mover, sd, sev)
         # greatest fixpoint for exact-BC models (plain BC passes only)
